@@ -472,6 +472,9 @@ func (engine) Run(ci any) lib.Result {
 		recTag = "rec:norunner:leaves:" + bucket(len(snapFresh0.lines))
 	}
 	tags = append(tags, recTag)
+	if !whiteBox {
+		tags = append(tags, "whitebox:unavailable") // built without the white-box group of C09 (tag verif_c09wb)
+	}
 
 	// direct oracle: every concurrent call = its spec alone
 	usedSpecs := map[int]bool{}
